@@ -82,17 +82,46 @@ def unit_sit(twin=False):
             U.discharge_eq_real(r, "water.ln(a_w)==-sum(m)*phi/55.50837", list(s.pc), aw.args[-1], tm.neg(osum) * phi / tm.Q("55.50837"))
         else:
             r.add("water.a_w_is_exp(...)", FAILED, "symex", 0, repr(aw)[:120])
-    # epsilon terms symmetric (case TYPE_SIT_EPSILON)
-    f, ex, its, info = U.run_loop_isolated(SIT, Q, role["eps"][0], ctx=ctx())
-    ne = 0
+    # interaction terms: log10 gamma_i += eps(i,k) * m_k and log10 gamma_k += eps(i,k) * m_i (times I for the ionic-strength dependent
+    # kind), and the osmotic sum gets the Gibbs-Duhem partner of exactly these two increments: for a term G = eps m_i m_k (degree 2 in
+    # the molalities) the osmotic contribution sum_j m_j dG/dm_j - G equals G itself
+    ev = A.enum_values_compiled("global_structures.h", ["TYPE_SIT_EPSILON", "TYPE_SIT_EPSILON_MU"])
+    c_e = stop_on_error_msg(ctx()); c_e.enum_values.update(ev)
+    f, ex, its, info = U.run_loop_isolated(SIT, Q, role["eps"][0], ctx=c_e)
+    ne = nm = 0
     for s in live(its, ("run", "cont", "brk")):
         w = [(ix, v) for ix, v in writes(s, ("m", "R")) if "sit_LGAMMA" in repr(ix[0])]
         if len(w) != 2:
-            continue
-        ne += 1
+            r.add("epsilon.both_partners_updated(i0,i1)", FAILED, "symex", 0, repr(w)[:200]); continue
         (a0_, va), (a1_, vb) = w
         r.add("epsilon.both_partners_updated(i0,i1)", DISCHARGED if a0_ != a1_ else FAILED, "symex", 0, "", kind="post")
-    r.add("reach.epsilon", DISCHARGED if ne >= 2 else UNDECIDED, "symex", 0, "%d" % ne, kind="vacuity")
+        i0, i1 = local(info, s, "i0"), local(info, s, "i1")
+        okix = a0_[1] is i0 and a1_[1] is i1
+        r.add("epsilon.updates_go_to_the_two_species_of_the_parameter", DISCHARGED if okix else FAILED, "symex", 0, "%r %r" % (a0_[1], a1_[1]))
+        Mv = tm.select(entry_arr(ex, s, ("f", "#vdata", "P")), tm.app("fld:sit_M", (THIS,), "P"))
+        LG = tm.select(entry_arr(ex, s, ("f", "#vdata", "P")), tm.app("fld:sit_LGAMMA", (THIS,), "P"))
+        memR = entry_arr(ex, s, ("m", "R"))
+        M0, M1 = tm.select(memR, Mv, i0), tm.select(memR, Mv, i1)
+        par = local(info, s, "param"); I = local(info, s, "I")
+        prm = tm.select(entry_arr(ex, s, ("m", "P")), tm.select(entry_arr(ex, s, ("f", "#vdata", "P")), tm.app("fld:sit_params", (THIS,), "P")), local(info, s, "i"))
+        ty = fld0(ex, s, "type", "I", prm)
+        r.add("epsilon.value_is_the_parameter's_own(p)", DISCHARGED if par is fld0(ex, s, "p", "R", prm) else FAILED, "symex", 0, repr(par)[:120])
+        z0, z1 = local(info, s, "z0"), local(info, s, "z1")
+        for hy, plain in cases(list(s.pc) + [tm.not_(tm.eq(i0, i1))], tm.eq(ty, tm.num(ev["TYPE_SIT_EPSILON"], "I"))):
+            fac = tm.num(1) if plain else I
+            if twin and plain:
+                fac = I
+            label = "epsilon" if plain else "epsilon_mu"
+            ne += plain; nm += (not plain)
+            d0 = va - tm.select(memR, LG, i0); d1 = vb - tm.select(memR, LG, i1)
+            U.discharge_eq_real(r, "%s.log_gamma[i0]+=m[i1]*eps%s" % (label, "" if plain else "*I"), hy, d0, M1 * par * fac)
+            U.discharge_eq_real(r, "%s.log_gamma[i1]+=m[i0]*eps%s" % (label, "" if plain else "*I"), hy, d1, M0 * par * fac)
+            if plain:
+                dO = local(info, s, "OSMOT") - tm.sym("iter_OSMOT", "R")
+                for hy2, neutral_pair in cases(hy, tm.and_(tm.eq(z0, tm.num(0)), tm.eq(z1, tm.num(0)))):
+                    if not neutral_pair:
+                        U.discharge_eq_real(r, "epsilon.osmotic_sum_gets_the_Gibbs_Duhem_partner(m0*dlg0+m1*dlg1-G==G)", hy2, dO, M0 * d0 + M1 * d1 - M0 * M1 * par)
+    r.add("reach.epsilon", DISCHARGED if ne >= 2 and nm >= 2 else UNDECIDED, "symex", 0, "%d/%d" % (ne, nm), kind="vacuity")
     r.assumptions += ["under(lm) = 10^lm; sit_A0 is the Debye-Hueckel A_phi of the solvent", "I is taken from mu_x (the ionic-strength unknown), as coded",
-                      "the epsilon-term magnitudes and the EPSILON_MU variant are not pinned", "doubles as reals"]
+                      "the osmotic partner of the EPSILON_MU kind and of a neutral-neutral pair (halved in the code; no such parameter in sit.dat) are not pinned", "the two species of a parameter are different (i0 != i1)", "doubles as reals"]
     return r
